@@ -224,7 +224,7 @@ func (vt *v2T) plantSharedLines(c *v2C, planted []v2Doc, q int) {
 				}
 				return nil
 			}()...) {
-				pls = append(pls, pl{alias, tokOff, tokOff + n - 1, lineOff + doc.Tokens[0].Line, lineOff + doc.Tokens[n-1].Line})
+				pls = append(pls, pl{alias, tokOff, tokOff + n - 1, lineOff + int(doc.Tokens[0].Line), lineOff + int(doc.Tokens[n-1].Line)})
 			}
 		}
 		for _, t := range doc.Tokens {
@@ -395,9 +395,9 @@ func (vt *v2T) plantCaseSep(c *v2C, planted []v2Doc, q int, sepWords int) {
 			if n < q || n == 0 {
 				return false // shorter than the minimum run length: outside the statement's domain
 			}
-			pls = append(pls, pl{*d, tokOff, tokOff + n - 1, lineOff + doc.Tokens[0].Line, lineOff + doc.Tokens[n-1].Line})
+			pls = append(pls, pl{*d, tokOff, tokOff + n - 1, lineOff + int(doc.Tokens[0].Line), lineOff + int(doc.Tokens[n-1].Line)})
 			if ak, ok := vt.aliasOf[d.Key]; ok {
-				pls = append(pls, pl{vt.byKey[ak], tokOff, tokOff + n - 1, lineOff + doc.Tokens[0].Line, lineOff + doc.Tokens[n-1].Line})
+				pls = append(pls, pl{vt.byKey[ak], tokOff, tokOff + n - 1, lineOff + int(doc.Tokens[0].Line), lineOff + int(doc.Tokens[n-1].Line)})
 			}
 		}
 		tokOff += n
@@ -486,7 +486,11 @@ func (vt *v2T) scenC03() {
 			[]byte("Copyright 2019 X\nalpha beta gamma delta epsilon zeta eta theta iota kappa lambda mu\nCopyright 2021 Y"),
 			// other things Unicode calls a line break are not: only "\n" ends a line (U+2028/U+2029 occur in corpus texts, NEL, VT, FF)
 			[]byte("Copyright 2019 X\u2028\u2029\nalpha beta gamma delta epsilon zeta\u2028 eta theta iota\u2029kappa lambda mu\u2028\u2028\u2029\nCopyright 2021 Y\u2028"),
-			[]byte("one two three four five six\u0085 seven\v eight\f nine ten eleven twelve\u2029\u2028\u0085\v\f\nCopyright 2021 Y\r"))
+			[]byte("one two three four five six\u0085 seven\v eight\f nine ten eleven twelve\u2029\u2028\u0085\v\f\nCopyright 2021 Y\r"),
+			// more lines than 16 bits count, a text on both sides of line 65536; a word longer than any buffer anyone would size for words
+			[]byte(strings.Repeat("\n", 65533)+"alpha beta gamma delta\nepsilon zeta eta theta\niota kappa lambda mu\n\nCopyright 2021 Y\n"+strings.Repeat("x\n", 40)+"one two three four five six seven eight nine ten eleven twelve\n"),
+			[]byte("one two three four five six "+strings.Repeat("Q", 20000)+" seven eight nine ten eleven twelve"),
+			[]byte(strings.Repeat("Z", 4097)+" alpha beta gamma delta epsilon zeta eta theta iota kappa lambda mu"))
 		n := 25
 		if vt.thorough() {
 			n = 150
@@ -585,6 +589,17 @@ func sortStrings(a []string) {
 func (vt *v2T) scenC07() {
 	docs := v2Corpus()
 	c := vt.build("c07", 0.8, docs)
+	// user documents of exactly 100, 50 and 25 distinct words: a text that lacks exactly the first fifth of one of them scores
+	// exactly the threshold
+	hund := map[int][]string{}
+	for _, n := range []int{100, 50, 25} {
+		var ws []string
+		for i := 0; i < n; i++ {
+			ws = append(ws, fmt.Sprintf("hun%dw%c%c", n, 'a'+i%26, 'a'+i/26))
+		}
+		hund[n] = ws
+		vt.add(c, v2Doc{Key: fmt.Sprintf("License/Hundred-%d/license.txt", n), Cat: "License", Name: fmt.Sprintf("Hundred-%d", n), Variant: "license.txt", Data: []byte(strings.Join(ws, " ") + "\n")})
+	}
 	scen := v2Scenarios()
 	n := 140
 	rates := []float64{0, 0.04, 0.12}
@@ -660,6 +675,11 @@ func (vt *v2T) scenC07() {
 		xs = append(xs, []byte(string(v2EnsureNL(a.Data))+sep+noisy))
 		labels = append(labels, "selfconcat/"+a.Key)
 	}
+	// texts that score exactly the threshold: the first (or last) fifth of a user document missing, nothing else
+	for _, n := range []int{100, 50, 25} {
+		xs = append(xs, []byte(strings.Join(hund[n][n/5:], " ")+"\n"), []byte(strings.Join(hund[n][:n-n/5], " ")+"\n"), []byte(strings.Join(hund[n][n/5-1:], " ")+"\n"))
+		labels = append(labels, fmt.Sprintf("at-threshold/head-%d", n), fmt.Sprintf("at-threshold/tail-%d", n), fmt.Sprintf("above-threshold/head-%d", n))
+	}
 	// the recorded instances of the open finding C07-negative-offset-clamp are always part of the run
 	if dir := os.Getenv("VERIF_CASES"); dir != "" {
 		files, _ := filepath.Glob(filepath.Join(dir, "C07-*.txt"))
@@ -678,6 +698,15 @@ func (vt *v2T) scenC07() {
 			continue
 		}
 		p, s := vt.oovBlock(c, 5), vt.oovBlock(c, 5)
+		if strings.HasPrefix(labels[xi], "at-threshold/") || strings.HasPrefix(labels[xi], "above-threshold/") {
+			// a block in front that is longer than what is missing, ending in a word broken over its last two lines
+			var ws []string
+			for k := 0; k < 26; k++ {
+				ws = append(ws, vt.oovWord(c))
+			}
+			w := vt.oovWord(c)
+			p = []byte(strings.Join(ws[:13], " ") + "\n" + strings.Join(ws[13:], " ") + " " + w[:3] + "-\n" + w[3:] + "\n")
+		}
 		// spellings X uses inside its lines that are list markers at the start of a line ("version 2.", "clause a."): the
 		// block in front of X starts some of its lines with them (no token there; a word in X)
 		var mk []string
